@@ -1,7 +1,10 @@
 //! C17 harness: replays operation histories over families of `Vector`/`Slice` handles.
 //! stdin: one case per line `<B> <op>,<op>,...`; stdout: one line per case.
-//! After every operation prints `<result>;<digest of every live handle>`, and at the end the
-//! full contents.  Every handle is shadowed by a `Vec<u32>` twin (direct oracle); a mismatch or a
+//! After every operation prints `<result>;<digest of every live handle>~<digest of its tree>`, and
+//! at the end the full contents and trees.  The tree of a handle is read off the derived `Debug`
+//! output of `Vector`/`Slice` (node structure, chunk contents, `length`, `height`, `start`, `end`),
+//! so the model is compared with the implementation on the *representation*, not only on the
+//! contents.  Every handle is shadowed by a `Vec<u32>` twin (direct oracle); a mismatch or a
 //! failed `check_invariants()` is flagged with `!TWIN` / `!INV` in the output.
 use nickel_lang_vector::{Slice, Vector};
 use std::io::{BufRead, Write};
@@ -13,6 +16,24 @@ fn digest(xs: &[u32]) -> String {
         h = (h * 31 + (*x as u64) + 1) % 1_000_000_007;
     }
     format!("{}:{}", xs.len(), h)
+}
+
+/// Canonical text of the representation, from the derived `Debug` impls:
+/// `Vector{root:Some(I[L[1,2],L[3]]),length:3,height:1}`, `Slice{vec:Vector{..},start:0,end:3}`.
+fn shape<T: std::fmt::Debug>(x: &T) -> String {
+    format!("{:?}", x)
+        .replace("Interior { children: Chunk[", "I[")
+        .replace("Leaf { data: Chunk[", "L[")
+        .replace("] }", "]")
+        .replace(' ', "")
+}
+
+fn sdigest(s: &str) -> u64 {
+    let mut h: u64 = 5;
+    for b in s.bytes() {
+        h = (h * 131 + (b as u64)) % 1_000_000_007;
+    }
+    h
 }
 
 fn parse_list(s: &str) -> Vec<u32> {
@@ -99,8 +120,7 @@ macro_rules! runner {
                                         }
                                     }
                                     "sg" => { let i = num(a1); let r = s.get(i).copied(); let e = t.get(i).copied();
-                                              // reads past the window but inside the backing vector are out of contract: report what Rust returns
-                                              if i < t.len() && r != e { "!TWIN".into() } else { match r { Some(x) => format!("some{x}"), None => "none".into() } } }
+                                              if r != e { "!TWIN".into() } else { match r { Some(x) => format!("some{x}"), None => "none".into() } } }
                                     "sl" => {
                                         let (a, b) = (num(a1), num(a2));
                                         match catch_unwind(AssertUnwindSafe(|| s.slice(a, b))) {
@@ -124,7 +144,7 @@ macro_rules! runner {
                         let l: Vec<u32> = v.iter().copied().collect();
                         if &l != t || v.len() != t.len() { out.push_str("!TWIN"); }
                         if catch_unwind(AssertUnwindSafe(|| v.check_invariants())).is_err() { out.push_str("!INV"); }
-                        out.push_str(&format!("v{i}={}|", digest(&l)));
+                        out.push_str(&format!("v{i}={}~{}|", digest(&l), sdigest(&shape(v))));
                     }
                 }
                 for (i, h) in ss.iter().enumerate() {
@@ -133,7 +153,7 @@ macro_rules! runner {
                         if &l != t || s.len() != t.len() { out.push_str("!TWIN"); }
                         let l2: Vec<u32> = s.clone().into_iter().collect();
                         if l2 != l { out.push_str("!TWIN"); }
-                        out.push_str(&format!("s{i}={}|", digest(&l)));
+                        out.push_str(&format!("s{i}={}~{}|", digest(&l), sdigest(&shape(s))));
                     }
                 }
                 out.push(' ');
@@ -142,13 +162,13 @@ macro_rules! runner {
             for (i, h) in vs.iter().enumerate() {
                 if let Some((v, _)) = h {
                     let l: Vec<String> = v.iter().map(|x| x.to_string()).collect();
-                    out.push_str(&format!("v{i}=[{}]", l.join(".")));
+                    out.push_str(&format!("v{i}=[{}]~{}|", l.join("."), shape(v)));
                 }
             }
             for (i, h) in ss.iter().enumerate() {
                 if let Some((s, _)) = h {
                     let l: Vec<String> = s.iter().map(|x| x.to_string()).collect();
-                    out.push_str(&format!("s{i}=[{}]", l.join(".")));
+                    out.push_str(&format!("s{i}=[{}]~{}|", l.join("."), shape(s)));
                 }
             }
             out
